@@ -233,3 +233,35 @@ Proof.
     unfold SpecR in HS. destruct (find_meth M n) as [m|]; [|discriminate Hpl]. destruct (m_loop m); [discriminate Hpl|].
     destruct HS as (msg & q & Hp). exists msg, q. exact (proj1 HD _ _ _ Hp _ HR).
 Qed.
+
+(* ---------- grammars with invalid_ rules: the FIRST pass (error mode off) ---------- *)
+(* With the flag off the generated parser computes exactly what the parser without its guarded alternatives computes
+   (Proofs/ExecStrip.v, C12); so whatever grammar the stripped module reads back as -- the source grammar without the
+   alternatives that mention an invalid_ rule -- is the one whose reference semantics the first pass implements. *)
+From Pegen Require Import Proofs.ExecStrip.
+Definition strip_rules (inv : alt -> bool) (rs : list rule) : list rule :=
+  map (fun r => {| rname := rname r; rtype := rtype r;
+                   rrhs := match rrhs r with Rhs id alts => Rhs id (filter (fun a => negb (inv a)) alts) end;
+                   rmemo := rmemo r |}) rs.
+
+Theorem first_pass_agrees_with_source K toks M aeval ex td fm rs' :
+  reads_back_with_actions rs' (strip_module M) = true ->
+  (forall xs e vs, nodup_s xs = true -> Forall2 (fun x v => env_get e x = Some v) xs vs ->
+     aeval (default_text xs) e = Some (match vs with [v] => v | _ => VList vs end)) ->
+  (forall e v vs, env_get e "elem" = Some v -> env_get e "seq" = Some (VList vs) -> aeval "[elem] + seq" e = Some (VList (v :: vs))) ->
+  (forall a, plain_alt (strip_module M) a -> a_explicit a = true -> forall e1 e0,
+     (forall x, In x (conj_vars (a_conjs a)) -> env_get e1 x <> None) -> aeval (a_action a) (e1 ++ e0)%list = aeval (a_action a) e1) ->
+  (forall a, plain_alt (strip_module M) a -> a_explicit a = true -> forall e v, aeval (a_action a) e = Some v -> truthy v = true) ->
+  (forall s t, In t toks -> is_kind2 s = false -> expect_test K ex td s t = String.eqb (tstr t) s) ->
+  (forall s t, In t toks -> is_kind2 s = true -> expect_test K ex td s t = kind2_test K M s t) ->
+  forall fuel n st, find_rule rs' n <> None -> invalid st = false ->
+  (forall v st', run K toks false false M aeval ex td fuel n st = (Ok v, st') ->
+     exists res, peg_item K rs' toks (i_keywords M) (i_soft_keywords M) (src_aeval aeval) src_names (fun _ => fm) (NameLeaf n) (pos st) res /\
+                 agrees v st st' res) /\
+  (forall ea t st', run K toks false false M aeval ex td fuel n st = (Raise (XSyntaxError ea t), st') ->
+     exists msg q, peg_item K rs' toks (i_keywords M) (i_soft_keywords M) (src_aeval aeval) src_names (fun _ => fm) (NameLeaf n) (pos st) (PErr msg q)).
+Proof.
+  intros Hrb Ha Hg Hst Htr Hl Hk fuel n st Hn Hi.
+  rewrite (strip_equiv K toks false false M aeval ex td fuel n st Hi).
+  exact (run_agrees_with_source_actions K toks (strip_module M) aeval ex td fm rs' Hrb Ha Hg Hst Htr Hl Hk fuel n st Hn).
+Qed.
